@@ -8,7 +8,8 @@ Ser(c) == [f |-> c.f, segs |-> c.segs, ps |-> c.ps,
 EmitCases == IF "OUT_FILE" \in DOMAIN IOEnv
              THEN JsonSerialize(IOEnv.OUT_FILE,
                     [scalar |-> [i \in 1..Cardinality(ScalarCases) |-> Ser(SetToSeq(ScalarCases)[i])],
-                     array  |-> [i \in 1..Cardinality(ArrayCases) |-> Ser(SetToSeq(ArrayCases)[i])]])
+                     array  |-> [i \in 1..Cardinality(ArrayCases) |-> Ser(SetToSeq(ArrayCases)[i])],
+                     long   |-> [i \in 1..Cardinality(LongArrayCases) |-> Ser(SetToSeq(LongArrayCases)[i])]])
              ELSE TRUE
 ASSUME EmitCases
 =============================================================================
